@@ -341,6 +341,9 @@ func (vc *VC) specObj(env *Env, obj types.Object) (Term, types.Type) {
 		if !ok {
 			env.fail("%s is not a global", o.Name())
 		}
+		if cv, ok := vc.constGlobal(g); ok {
+			return cv, o.Type()
+		}
 		addr := vc.val(vc.top, g)
 		v := vc.load(env.st, addr, o.Type())
 		if vc.eng.initNonNil(g) {
@@ -863,7 +866,7 @@ func (vc *VC) specCall(env *Env, x *SCall) (Term, types.Type) {
 		}
 		p, _ := vc.specExpr(env, x.Args[0])
 		if id.Name == "wakes" {
-			// number of Broadcast / Signal calls this function has made on the condition variable p points to
+			// number of Broadcast calls this function has made on the condition variable p points to
 			return Select(Select(vc.get(env.st, "W_wakes", lockCntSort), Root(p)), PathOf(p)), types.Typ[types.Int]
 		}
 		if id.Name == "locked" {
@@ -1123,7 +1126,19 @@ func (vc *VC) applyContract(fr *Frame, st *State, con *Contract, fn *ssa.Functio
 	// frame
 	if con.Flags["pure"] == "" {
 		if !con.HasAssigns {
+			kept := map[string]Term{}
+			for _, gv := range con.Preserves {
+				if t, ok := st.mem["GV_"+gv]; ok {
+					kept["GV_"+gv] = t
+				} else if vc.eng.ss.GhostVars[gv] != nil {
+					kept["GV_"+gv] = vc.get(st, "GV_"+gv, vc.sortOf(vc.eng.parseType(vc.eng.typesPkg(vc.eng.ss.GhostVars[gv].Pkg), vc.eng.ss.GhostVars[gv].Type)))
+				}
+			}
 			vc.havocAll(st, fr.allLocalRoots())
+			for n, t := range kept {
+				st.mem[n] = t
+				vc.assumed["callee "+con.Key()+" is assumed not to reach any operation on ghost variable "+strings.TrimPrefix(n, "GV_")+" (clause preserves)"] = true
+			}
 			vc.havocked["contract without assigns: "+con.Key()] = true
 		} else {
 			for _, a := range con.Assigns {
